@@ -777,3 +777,10 @@ def _np_nonzero(eng, args, kwargs):
 
 
 models.EXTRA_MODELS[np.nonzero] = _np_nonzero
+
+
+# ---------------------------------------------------------------------------------------------------------------
+# lists of Node handles on one tree (pyvc.ext_C07.NodeList: stored as the list of the handles' indices): `append` of a handle
+from .ext_C07 import NodeList, _nl_append  # noqa: E402
+
+models.EXTRA_METHODS[(NodeList, "append")] = _nl_append
